@@ -8,7 +8,7 @@ import (
 )
 
 func main() {
-	all := []string{"rd-safe", "rd-unsafe-cf", "rd-unsafe-cf-nomem", "rd-partial-ucf-nomem", "rd-partial-ucf-nomem-f1", "rd-keep2", "rd-keep3", "mg-safe", "mg-empty", "faulty/safe3", "faulty/safe3keep2", "faulty/merge4/sticky"}
+	all := []string{"rd-safe", "rd-unsafe-cf", "rd-unsafe-cf-nomem", "rd-partial-ucf-nomem", "rd-partial-ucf-nomem-f1", "rd-keep2", "rd-keep3", "mg-safe", "mg-empty", "faulty/safe3", "faulty/safe3keep2", "faulty/merge4/sticky", "faulty/safe3/nohold", "faulty/merge4/nohold", "faulty/safe3/closefault", "faulty/merge4/closefault"}
 	livecheck.Main(livecheck.Plan{
 		ID:     "C11",
 		Oracle: livecheck.Oracle{Files: true},
